@@ -349,8 +349,18 @@ _stock: dict[int, list] = {}     # per app: registered invocation ids that are n
 
 def route(task, n: int) -> None:
     """Put n runnable invocations into the app's queue: re-queue registered ones taken out earlier, else call the task."""
-    st = _stock.setdefault(id(task.app), [])
-    take, st[:] = st[:n], st[n:]
+    st = task.app.__dict__.setdefault("_c14_stock", [])      # (kept on the application object itself: `id()` values are re-used)
+    take: list = []
+    while st and len(take) < n:
+        # only what is still runnable goes back: an id may be in stock as the second message of an invocation that has been claimed
+        # through its first one in the meantime (the `retry` steps route a live worker's invocation again)
+        i = st.pop(0)
+        try:
+            ok = i not in take and task.app.orchestrator.get_invocation_status(i).is_available_for_run()
+        except Exception:  # noqa: BLE001
+            ok = False
+        if ok:
+            take.append(i)
     if take:
         task.app.broker.route_invocations(take)
     for _ in range(n - len(take)):
@@ -359,7 +369,7 @@ def route(task, n: int) -> None:
 
 def drain(app) -> None:
     """Empty the queue (what is still queued was never handed to a runner, so it stays runnable: keep it in stock)."""
-    st = _stock.setdefault(id(app), [])
+    st = app.__dict__.setdefault("_c14_stock", [])
     while (inv_id := app.broker.retrieve_invocation()) is not None:
         st.append(inv_id)
 
